@@ -292,6 +292,18 @@ def _build(spec):
                                   inner, spec["out_size"], spec["d_v"], **kw)
 
 
+def _travel(mod, case, dt, *ints):
+    """The module after a journey: deepcopy / pickle, or its state_dict loaded into a freshly built twin."""
+    k = sum((2 * j + 3) * int(x) for j, x in enumerate(ints))
+    if k % 7 == 3:
+        twin = _build(case["spec"]).to(dt)
+        twin.load_state_dict(mod.state_dict())
+        twin.eval()
+        LY.TRAVEL_SEEN["state_dict"] = LY.TRAVEL_SEEN.get("state_dict", 0) + 1
+        return twin
+    return LY.travelled(mod, *ints, toggle_ok=False)
+
+
 def _materialise(case):
     import torch
 
@@ -311,7 +323,7 @@ def _materialise(case):
         mask = None
         if ex["mask"] is not None:
             mask = torch.tensor(ex["mask"], dtype=torch.bool).reshape(ex["mask_shape"])
-        return mod, q, k, v, mask, torch.Generator().manual_seed(12345)
+        return _travel(mod, case, dt, q.numel(), k.numel()), q, k, v, mask, torch.Generator().manual_seed(12345)
     g = torch.Generator().manual_seed(case["seed"])
     with torch.no_grad():
         for name, prm in sorted(mod.named_parameters()):
@@ -319,6 +331,7 @@ def _materialise(case):
             if name.endswith("bias"):
                 val = torch.where(val < 0, val - 0.5, val + 0.5)  # a requested bias is never ~0
             prm.copy_(val.to(dt))
+    mod = _travel(mod, case, dt, case["seed"], case["n"])
     q = (torch.randn(case["query_shape"], generator=g, dtype=torch.float64) * case["qk_scale"]).to(dt)
     k = (torch.randn(case["key_shape"], generator=g, dtype=torch.float64) * case["qk_scale"]).to(dt)
     v = (case["v_offset"] + torch.randn(case["value_shape"], generator=g, dtype=torch.float64) * case["v_noise"]).to(dt)
